@@ -24,6 +24,31 @@ def run(ctx):
     s = sym.summarize(repo, f.qualname)
     vertices, edges, cells, ne = (T.sym(p) for p in f.params[:4])
     gmparams = f.params
+    # no way out of generate_mesh in front of the contraction of two-point border interfaces: an early `return` (whatever its reason)
+    # hands back a mesh in which those interfaces still have their two ends
+    own = repo.own_nodes(f)
+    joins = [n for n in own if isinstance(n, ast.Call) and rules.call_name(repo, f, n) == "forsys.virtual_edges.join_two_vertices"]
+    rets = [n for n in own if isinstance(n, ast.Return)]
+    if joins and rets:
+        last_join = max(n.lineno for n in joins)
+        def empty_input_guard(r_):
+            """`if not xs: return ...` / `if len(xs) == 0: return ...`: nothing to resample, nothing to contract"""
+            for n in own:
+                if isinstance(n, ast.If) and r_ in n.body:
+                    t = n.test
+                    if isinstance(t, ast.UnaryOp) and isinstance(t.op, ast.Not) and isinstance(t.operand, (ast.Name, ast.Attribute)):
+                        return True
+                    if isinstance(t, ast.Compare) and len(t.ops) == 1 and isinstance(t.ops[0], ast.Eq) and isinstance(t.left, ast.Call) \
+                            and isinstance(t.left.func, ast.Name) and t.left.func.id == "len" and rules.const_value(t.comparators[0]) == 0:
+                        return True
+            return False
+        for r_ in rets:
+            if r_.lineno < last_join and not empty_input_guard(r_):
+                ctx.violation("GUARD", f"{GM} / GUARD / every exit lies behind the contraction of two-point border interfaces", ctx.where(f, r_),
+                              f"`{f.module.line(r_.lineno)}` leaves generate_mesh in front of the call of join_two_vertices (line {last_join}): "
+                              "on that path a two-point border interface keeps its two ends instead of being contracted to its midpoint")
+        if all(r_.lineno > last_join or empty_input_guard(r_) for r_ in rets):
+            ctx.ok("GUARD", f"{GM} / GUARD / every exit lies behind the contraction of two-point border interfaces", ctx.where(f), f"{len(rets)} return statement(s), all after line {last_join}")
     # the list that is returned as the resampled interfaces
     ret_gm = s.ret()
     built = [x[1] for x in T.subterms(ret_gm[1][3]) if x[0] in ("loopres", "lc")] if ret_gm[0] == "seq" and len(ret_gm[1]) == 4 else []
@@ -219,6 +244,7 @@ def _attr(summary, base, name):
 
 _V = "forsys/virtual_edges.py"
 PINNED = [
+    ("early return when no interface is longer than ne", "forsys/virtual_edges.py", "    nEdgeArray = []\n", "    if all(len(e) <= ne for e in bedges):\n        return vertices, edges, cells, bedges\n    nEdgeArray = []\n"),
     ("cells with fewer than three vertices removed", _V, "        if len(cells[c].vertices) == 0:", "        if len(cells[c].vertices) < 3:"),
     ("resampling snaps kept vertices to a grid", _V, "    # remove all edges\n    edges.clear()", "    for v in vertices.values():\n        v.x = round(v.x, 2)\n        v.y = round(v.y, 2)\n    # remove all edges\n    edges.clear()"),
     ("resampling threshold off by two", _V, "        if len(e) > ne:\n            if not e in alreadySeen", "        if len(e) - 2 > ne:\n            if not e in alreadySeen"),
